@@ -133,7 +133,7 @@ fn translate_block(
                     semantics::bctr(&mut instruction_graph, &instruction)
                 }
                 capstone::ppc_insn::PPC_INS_BDNZL => nop(&mut instruction_graph),
-                capstone::ppc_insn::PPC_INS_BLR => nop(&mut instruction_graph),
+                capstone::ppc_insn::PPC_INS_BLR => semantics::blr(&mut instruction_graph),
                 capstone::ppc_insn::PPC_INS_CMPWI => {
                     semantics::cmpwi(&mut instruction_graph, &instruction)
                 }
@@ -219,7 +219,7 @@ fn translate_block(
 
                     break;
                 }
-                capstone::ppc_insn::PPC_INS_BCTR => {
+                capstone::ppc_insn::PPC_INS_BCTR | capstone::ppc_insn::PPC_INS_BLR => {
                     instruction_graph.set_address(Some(instruction.address));
                     block_graphs.push((instruction.address, instruction_graph));
 
@@ -240,7 +240,7 @@ fn translate_block(
                     }
                     break;
                 }
-                capstone::ppc_insn::PPC_INS_BLR | capstone::ppc_insn::PPC_INS_BL => {
+                capstone::ppc_insn::PPC_INS_BL => {
                     instruction_graph.set_address(Some(instruction.address));
                     block_graphs.push((instruction.address, instruction_graph));
                 }
